@@ -7,12 +7,16 @@
 (*          dist   in {"Ok", "Missing"}                    key 'distribution'            *)
 (*          cond   in {Absent, CondNone} \cup -1..n        key 'conditional_on'          *)
 (*          params in {"Absent", "Exact", "MissingOne", "UnknownName",                   *)
-(*                     "FixedAndDependent"}                key 'parameters'              *)
+(*                     "FixedAndDependent", "DepUnknownParam", "DepMisspeltOption"}      *)
+(*                     key 'parameters' (the last two: a dependence function built with  *)
+(*                     a keyword that is neither an option nor a parameter of its func)  *)
 (*          extra  in BOOLEAN                              an unknown key                *)
 (*          slicer in {"Ok", "UnknownKwarg", "UnknownRef", "RefWrongType", "TooFew",     *)
 (*                     "RangeAboveData"}                                                  *)
 (*   fit  : [kind, pos]  fit_descriptions: "None" | "Ok" | "TooShort" | "TooLong" |      *)
-(*          "MissingMethod" | "UnknownMethod" | "UnknownWeights" (at dimension pos)      *)
+(*          "MissingMethod" | "UnknownMethod" | "UnknownWeights" | "UnknownKey" |        *)
+(*          "UnknownKeyPlus" (an unknown key next to valid 'method' and 'weights')       *)
+(*          (at dimension pos)                                                           *)
 (*   data : "Ok" | "TooFewCols" | "TooManyCols" | "OneDim" | "Ndim3"                     *)
 (*   op   : [kind, arg, pos]  what is computed from the fitted model:                    *)
 (*          kind in {"iform", "hdc", "ds", "and", "or", "pdf", "cdf", "mpdf", "mcdf",    *)
@@ -104,7 +108,7 @@ Stage(c) ==
     ELSE 5
 
 (* 'conditional_on': None is only enumerated together with 'parameters' *)
-FitAtNames == {"MissingMethod", "UnknownMethod", "UnknownWeights"}
+FitAtNames == {"MissingMethod", "UnknownMethod", "UnknownWeights", "UnknownKey", "UnknownKeyPlus"}
 InDomain(c) ==
     /\ \A i \in 1..c.n : c.dims[i].cond = CondNone => c.dims[i].params # "Absent"
     \* an all-fixed carrier only where the fit description of that (unconditional) dimension is
@@ -133,7 +137,8 @@ Documented == {"ValueError", "TypeError", "RuntimeError", "NotImplementedError"}
 
 M(name, pos) == [name |-> name, pos |-> pos]
 CondNames == {"CondSelf", "CondLater", "CondNonexistent", "CondNegative", "FirstConditional"}
-ParamNames == {"CondNoParams", "ParamMissingOne", "ParamUnknownName", "ParamFixedAndDependent"}
+ParamNames == {"CondNoParams", "ParamMissingOne", "ParamUnknownName", "ParamFixedAndDependent",
+               "ParamDepUnknownParam", "ParamDepMisspeltOption"}
 UncondParamNames == {"ParamsNoCond", "ParamsNoCondUnknown"}       \* 'parameters' on an unconditional variable
 SlicerNames == {"SlicerUnknownKwarg", "SlicerUnknownRef", "SlicerRefWrongType", "SlicerTooFew",
                 "SlicerRangeAboveData"}
@@ -155,7 +160,8 @@ Malformations(b) ==
       \cup {M("FirstConditional", 0)}
       \cup {M(nm, i) : nm \in SlicerNames, i \in D}
       \cup {M("FitTooShort", 0), M("FitTooLong", 0)}
-      \cup {M(nm, i) : nm \in {"FitMissingMethod", "FitUnknownMethod", "FitUnknownWeights"}, i \in D}
+      \cup {M(nm, i) : nm \in {"FitMissingMethod", "FitUnknownMethod", "FitUnknownWeights", "FitUnknownKey",
+                               "FitUnknownKeyPlus"}, i \in D}
       \cup {M("DataTooFewCols", 0), M("DataTooManyCols", 0), M("DataOneDim", 0), M("DataNdim3", 0)}
       \cup {M(nm, 0) : nm \in {"HdcLimitsShort", "HdcLimitsLong", "HdcDeltasShort", "HdcDeltasLong",
                                "IformString", "IformDist", "IformNone"}}
@@ -171,7 +177,7 @@ Field(m) ==
       [] m.name \in ParamNames \cup UncondParamNames -> <<"params", m.pos>>
       [] m.name \in SlicerNames    -> <<"slicer", m.pos>>
       [] m.name \in {"FitTooShort", "FitTooLong", "FitMissingMethod", "FitUnknownMethod",
-                     "FitUnknownWeights"} -> <<"fit", 0>>
+                     "FitUnknownWeights", "FitUnknownKey", "FitUnknownKeyPlus"} -> <<"fit", 0>>
       [] m.name \in {"DataTooFewCols", "DataTooManyCols", "DataOneDim", "DataNdim3"} -> <<"data", 0>>
       [] OTHER -> <<"op", 0>>
 
@@ -202,6 +208,8 @@ ApplyOne(c, m) ==
       [] m.name = "ParamMissingOne"  -> [c EXCEPT !.dims[i].params = "MissingOne"]
       [] m.name = "ParamUnknownName" -> [c EXCEPT !.dims[i].params = "UnknownName"]
       [] m.name = "ParamFixedAndDependent" -> [c EXCEPT !.dims[i].params = "FixedAndDependent"]
+      [] m.name = "ParamDepUnknownParam" -> [c EXCEPT !.dims[i].params = "DepUnknownParam"]
+      [] m.name = "ParamDepMisspeltOption" -> [c EXCEPT !.dims[i].params = "DepMisspeltOption"]
       [] m.name = "ParamsNoCond"     -> [c EXCEPT !.dims[i].params = "Exact"]
       [] m.name = "ParamsNoCondUnknown" -> [c EXCEPT !.dims[i].params = "UnknownName"]
       [] m.name = "CondNoneParams"   -> [c EXCEPT !.dims[i].cond = CondNone, !.dims[i].params = "Exact"]
@@ -220,6 +228,8 @@ ApplyOne(c, m) ==
       [] m.name = "FitMissingMethod" -> [c EXCEPT !.fit = [kind |-> "MissingMethod", pos |-> m.pos]]
       [] m.name = "FitUnknownMethod" -> [c EXCEPT !.fit = [kind |-> "UnknownMethod", pos |-> m.pos]]
       [] m.name = "FitUnknownWeights" -> [c EXCEPT !.fit = [kind |-> "UnknownWeights", pos |-> m.pos]]
+      [] m.name = "FitUnknownKey"    -> [c EXCEPT !.fit = [kind |-> "UnknownKey", pos |-> m.pos]]
+      [] m.name = "FitUnknownKeyPlus" -> [c EXCEPT !.fit = [kind |-> "UnknownKeyPlus", pos |-> m.pos]]
       [] m.name = "DataTooFewCols"   -> [c EXCEPT !.data = "TooFewCols"]
       [] m.name = "DataTooManyCols"  -> [c EXCEPT !.data = "TooManyCols"]
       [] m.name = "DataOneDim"       -> [c EXCEPT !.data = "OneDim"]
@@ -239,7 +249,8 @@ AllNames == <<"CondSelf", "CondLater", "CondNonexistent", "CondNegative", "First
               "ParamsNoCondUnknown", "SlicerRangeAboveData", "DataNdim3", "PdfSurplus", "CdfSurplus",
               "TpdfSurplus", "MpdfNaN", "MpdfInf", "McdfNaN", "McdfInf", "MicdfNaN", "MicdfInf", "CcdfNaN",
               "CcdfInf", "CcdfGivenNaN", "CcdfGivenInf", "CicdfNaN", "CicdfInf", "CicdfGivenNaN",
-              "CicdfGivenInf", "TpdfNaN", "TpdfInf">>
+              "CicdfGivenInf", "TpdfNaN", "TpdfInf", "FitUnknownKey", "FitUnknownKeyPlus",
+              "ParamDepUnknownParam", "ParamDepMisspeltOption">>
 Idx(name) == CHOOSE k \in 1..Len(AllNames) : AllNames[k] = name
 Key(m) == IF m.name = "CondNoneParams" THEN m.pos ELSE 10 * Idx(m.name) + m.pos   \* cond-type first
 
@@ -294,6 +305,8 @@ ConstructExc(c, hc, sc) ==
     IF (\E i \in 1..c.n : c.dims[i].slicer = "UnknownKwarg")
        /\ ~(sc = "slicerkw" /\ c.ctx.skw = "value_range")    \* deviation: option hoisted into the base class
     THEN "TypeError"                                                             \* building the slicer
+    ELSE IF sc # "depkwignored" /\ \E i \in 1..c.n : c.dims[i].params \in {"DepUnknownParam", "DepMisspeltOption"}
+         THEN "TypeError"                                          \* building the dependence function
     ELSE IF sc # "lateref" /\ \E i \in 1..c.n : c.dims[i].slicer = "RefWrongType" THEN "TypeError"
     ELSE IF sc # "lateref" /\ \E i \in 1..c.n : c.dims[i].slicer = "UnknownRef" THEN "ValueError"
     ELSE IF \E i \in 1..c.n :                                                  \* _check_dist_descriptions
@@ -305,6 +318,7 @@ ConstructExc(c, hc, sc) ==
                 \/ dm.extra
          THEN "ValueError"
     ELSE IF \E i \in 1..c.n : IsCond(c.dims[i]) /\ c.dims[i].params # "Exact"
+                             /\ c.dims[i].params \notin {"DepUnknownParam", "DepMisspeltOption"}   \* (dropped silently)
                              \* deviation: "fixed" tested by truth value, so a parameter fixed at zero is not seen
                              /\ ~(sc = "falsyfixed" /\ c.dims[i].params = "FixedAndDependent"
                                   /\ c.ctx.fixval # "nonzero")
@@ -323,6 +337,7 @@ SliceExc(c, sc) ==
 (* made when the sample has to be drawn                                                     *)
 FitExc(c, sc) ==
     IF FitOk(c) THEN "none"
+    ELSE IF sc = "fitkeyignored" /\ c.data = "Ok" /\ c.fit.kind \in {"UnknownKey", "UnknownKeyPlus"} THEN "none"
     ELSE IF sc = "allfixed" /\ c.data = "Ok" /\ c.fit.kind \in {"UnknownMethod", "UnknownWeights"}
             /\ c.ctx.fixed = c.fit.pos THEN "none"
     ELSE "ValueError"
